@@ -199,6 +199,10 @@ class Env:
             return ch[0] != ch[1]
         if k == Z.Z3_OP_TO_REAL:
             return float(ch[0])
+        if k == Z.Z3_OP_TO_INT:
+            import math as _m
+
+            return _m.floor(ch[0])
         if k == Z.Z3_OP_UNINTERPRETED:
             return self._opaque(t.decl().name(), ch)
         raise NotImplementedError(f"feval: operator {t.decl().name()} ({k})")
